@@ -6,6 +6,66 @@ use proptest::prelude::*;
 use serde::{Deserialize, Serialize};
 use serde_json::Value;
 
+/// Text that a normalising or case-folding comparison takes for `text` although it is another string: one character
+/// replaced by its full-width form, by a compatibility / case-folding twin (Kelvin sign for K, long s for s, dotless i ...), a
+/// precomposed letter by its decomposition (or the reverse), or a variation selector / zero-width joiner added.
+pub fn confusable(text: &str, how: u8) -> Option<String> {
+  let chars: Vec<char> = text.chars().collect();
+  let swap = |pred: &dyn Fn(char) -> Option<String>| -> Option<String> {
+    for (i, c) in chars.iter().enumerate() {
+      if let Some(r) = pred(*c) {
+        let mut out: String = chars[..i].iter().collect();
+        out.push_str(&r);
+        out.extend(chars[i + 1..].iter());
+        return Some(out);
+      }
+    }
+    None
+  };
+  let out = match how % 8 {
+    0 => swap(&|c| if c.is_ascii_alphanumeric() { char::from_u32(c as u32 - 0x20 + 0xff00).map(|f| f.to_string()) } else { None }),
+    1 => swap(&|c| match c { 'K' | 'k' => Some("\u{212a}".into()), 's' => Some("\u{17f}".into()), 'S' => Some("\u{17f}".into()), 'i' => Some("\u{131}".into()), 'I' => Some("\u{130}".into()), 'A' => Some("\u{391}".into()), 'a' => Some("\u{430}".into()), 'e' => Some("\u{435}".into()), 'o' => Some("\u{43e}".into()), _ => None }),
+    2 => swap(&|c| match c { '\u{e9}' => Some("e\u{301}".into()), '\u{e8}' => Some("e\u{300}".into()), '\u{fc}' => Some("u\u{308}".into()), '\u{f1}' => Some("n\u{303}".into()), '\u{c5}' => Some("\u{212b}".into()), 'e' => Some("\u{e9}".into()), _ => None }),
+    3 => swap(&|c| match c { 'f' => Some("\u{fb01}".into()), '1' => Some("\u{b9}".into()), '2' => Some("\u{b2}".into()), ' ' => Some("\u{a0}".into()), '-' => Some("\u{2010}".into()), '"' => Some("\u{201c}".into()), '.' => Some("\u{2024}".into()), ':' => Some("\u{a789}".into()), _ => None }),
+    4 => Some(format!("{text}\u{fe0f}")),
+    5 => if chars.len() >= 2 { Some(format!("{}\u{200d}{}", chars[..1].iter().collect::<String>(), chars[1..].iter().collect::<String>())) } else { None },
+    6 => swap(&|c| if c.is_ascii_lowercase() { Some(c.to_ascii_uppercase().to_string()) } else { None }),
+    _ => swap(&|c| match c { '\u{df}' => Some("ss".into()), 's' => Some("\u{df}".into()), _ => None }),
+  }?;
+  if out == text { None } else { Some(out) }
+}
+
+/// An owned String with the content of `s` and one of several allocation histories (exact capacity, spare capacity, grown
+/// push by push, cut back from something longer, a re-used buffer): the content is all a callee may go by.
+pub fn owned(s: &str, how: u8) -> String {
+  match how % 5 {
+    0 => s.to_string(),
+    1 => {
+      let mut o = String::with_capacity(s.len() + 17);
+      o.push_str(s);
+      o
+    }
+    2 => {
+      let mut o = String::new();
+      for c in s.chars() {
+        o.push(c);
+      }
+      o
+    }
+    3 => {
+      let mut o = format!("{s} and a tail that is cut off again");
+      o.truncate(s.len());
+      o
+    }
+    _ => {
+      let mut o = String::from("an earlier content of this buffer, longer than most keys");
+      o.clear();
+      o.push_str(s);
+      o
+    }
+  }
+}
+
 pub mod hexser {
   use serde::{Deserialize, Deserializer, Serializer};
   pub fn serialize<S: Serializer>(v: &Vec<u8>, s: S) -> Result<S::Ok, S::Error> {
@@ -202,7 +262,11 @@ fn mixed_char() -> impl Strategy<Value = char> {
     3 => (0x20u32..0x7f).prop_map(|c| char::from_u32(c).unwrap()),
     1 => (0u32..0x20).prop_map(|c| char::from_u32(c).unwrap()),
     1 => (0x7fu32..0x100).prop_map(|c| char::from_u32(c).unwrap()),
-    1 => any::<u16>().prop_map(|i| ['\\', '"', '.', '=', '\u{7ff}', '\u{800}', '\u{d7ff}', '\u{e000}', '\u{fffd}', '\u{ffff}', '\u{10000}', '\u{10ffff}', '\u{2028}', '\u{feff}', '\u{301}', '\0'][crate::engine::pick(i, 16)]),
+    1 => any::<u16>().prop_map(|i| ['\\', '"', '.', '=', '\u{7ff}', '\u{800}', '\u{d7ff}', '\u{e000}', '\u{fffd}', '\u{ffff}', '\u{10000}', '\u{10ffff}', '\u{2028}', '\u{feff}', '\u{301}', '\0',
+      // what "safe for JavaScript / HTML / logs" escapers single out
+      '\u{2029}', '\u{85}', '\u{b}', '\u{c}', '/', '<', '>', '&', '\'', '\u{7f}',
+      // beyond the basic plane (escapers that write \\uXXXX must use surrogate pairs there): tag characters, flags, private use, the last code points
+      '\u{e0001}', '\u{e0067}', '\u{e007f}', '\u{1f3f4}', '\u{1f600}', '\u{f0000}', '\u{10fffd}', '\u{1d11e}'][crate::engine::pick(i, 34)]),
   ]
 }
 
@@ -210,7 +274,7 @@ pub fn unicode(max: usize) -> impl Strategy<Value = String> {
   vec(mixed_char(), 0..=max).prop_map(|v| v.into_iter().collect())
 }
 
-const SPECIALS: [&str; 70] = [
+const SPECIALS: [&str; 96] = [
   // strings that look like what footers carry in deployed systems: PASERK key ids and (mis-placed) serialised keys,
   // key-id JSON, URLs, another token
   "k4.lid.iVtYQDjr5gEijCSjJC3fQaJm7nCeQSeaty0Jixy8dbsk", "k4.pid.9ShR3xc8-qVJ_di0tc9nx0IDIqbatdeM2mqLFBJsKRHs", "k4.local.cHFyc3R1dnd4eXp7fH1-f4CBgoOEhYaHiImKi4yNjo8",
@@ -223,6 +287,12 @@ const SPECIALS: [&str; 70] = [
   "\u{feff}{\"a\":1}", "\u{feff}abc", " {\"a\":1} ", "abc\n",
   // normalisation and case-mapping corner cases: NFC vs NFD, sharp s, dotted capital I, long s, Kelvin sign, ligature, titlecase digraph
   "\u{e9}", "e\u{301}", "\u{df}", "\u{130}", "\u{17f}", "\u{212a}", "\u{fb01}", "\u{1c5}", "\u{3a3}\u{3c2}", "\u{1e9e}",
+  // text that is itself a complete JSON document, separators that escapers treat specially
+  // text whose base64url SPELLS a word of the token grammar ("8publicg", "IOClocal", "QzAv35Ag", "Qk4g", "5pie", "85expzAg", "Qsub", "QzkidzAg" ...)
+  "\u{9b6d6}' ", "\u{9b6d6}'0", " \u{961}\u{1a5}", " \u{1961}\u{1a5}", "C0/\u{7d0} ", "C0/\u{6d0}0", "BN ", "\u{661e}", "\u{d7c67}0 ", "B\u{2db}",
+  // text ENDING in characters that do not render (what a "tolerant" trim would cut off)
+  "tenant-42\u{200b}", "x\u{200d}", "a\u{2060}", "b\u{fe0f}", "kid-7\u{200c}", "\u{200b}\u{200d}", "id\u{ad}", "z\u{feff}",
+  "[\"a\"]", " [ \"web\" , \"mobile\" ] ", "{\"role\":\"admin\"}", "[1,2,3]", "\"quoted\"", "\u{2029}", "a\u{2028}b\u{2029}c", "</script>\u{85}",
 ];
 
 pub fn special() -> impl Strategy<Value = String> {
@@ -247,9 +317,37 @@ pub fn text() -> BoxedStrategy<Text> {
   .boxed()
 }
 
+/// text that is itself a complete JSON document (a list of names, an object, a quoted string, a number ...), written
+/// compactly, spaced out or pretty-printed: as a claim VALUE or a footer it is a string like any other
+pub fn json_looking() -> BoxedStrategy<String> {
+  // (own small leaves: the general JSON generators draw their strings from `short_text`, which draws from here)
+  let leaf = prop_oneof![
+    3 => "[a-z]{0,6}".prop_map(|w| serde_json::json!(w)),
+    1 => (-5i64..1000).prop_map(|i| serde_json::json!(i)),
+    1 => Just(Value::Null),
+    1 => Just(serde_json::json!(true)),
+    1 => Just(serde_json::json!("a \"quoted\" word")),
+  ];
+  let doc = prop_oneof![
+    3 => vec(leaf.clone(), 0..4).prop_map(Value::Array),
+    3 => vec(("[a-z]{1,5}", leaf.clone()), 0..4).prop_map(|m| Value::Object(m.into_iter().collect())),
+    1 => leaf.clone(),
+    1 => vec(vec(leaf, 0..2).prop_map(Value::Array), 0..3).prop_map(Value::Array),
+  ];
+  (doc, 0u8..4)
+    .prop_map(|(v, style)| match style {
+      0 => v.to_string(),
+      1 => format!(" {} ", v),
+      2 => serde_json::to_string_pretty(&v).unwrap_or_default(),
+      _ => v.to_string().replace(',', " , ").replace(':', " : "),
+    })
+    .boxed()
+}
+
 /// shorter texts (no large boundaries) for expensive protocols and builder-layer strings
 pub fn short_text() -> BoxedStrategy<Text> {
   prop_oneof![
+    1 => json_looking().prop_map(Text::Lit),
     4 => jsonish(40).prop_map(Text::Lit),
     3 => unicode(16).prop_map(Text::Lit),
     1 => special().prop_map(Text::Lit),
